@@ -21,7 +21,7 @@ from . import choice
 from .report import HarnessError
 
 SRC = os.path.join(str(lib.REPO), "schwifty") + os.sep
-STEP_LIMIT = 200000
+STEP_LIMIT = 20_000_000
 
 
 class State:
@@ -39,8 +39,12 @@ class State:
 
 
 class Runner:
-    def __init__(self, n: int, opcode: bool = False, fingerprint=None):
+    def __init__(self, n: int, opcode: bool = False, fingerprint=None, per_line_limit: int | None = None):
         self.n = n
+        # at most this many switch offers per (thread, source line): loops over thousands of
+        # registry entries would otherwise offer a preemption at every iteration
+        self.per_line_limit = per_line_limit
+        self.line_hits: dict = {}
         self.opcode = opcode
         self.fingerprint = fingerprint
         self.go = [threading.Semaphore(0) for _ in range(n)]
@@ -50,6 +54,7 @@ class Runner:
         self.ch = None
         self.st = None
         self.broken = False
+        self.atomic = [0] * n
         self.threads = [threading.Thread(target=self._loop, args=(i,), daemon=True) for i in range(n)]
         for t in self.threads:
             t.start()
@@ -63,8 +68,18 @@ class Runner:
 
         opcode = self.opcode
 
+        def modlocal(frame, event, arg):
+            # a module body (an import in progress holds the interpreter's import lock for that
+            # module): no switching until it returns
+            if event == "return":
+                self.atomic[tid] -= 1
+            return modlocal
+
         def glob(frame, event, arg):
             if event == "call" and frame.f_code.co_filename.startswith(SRC):
+                if frame.f_code.co_name == "<module>":
+                    self.atomic[tid] += 1
+                    return modlocal
                 if opcode:
                     frame.f_trace_opcodes = True
                 return local
@@ -73,7 +88,7 @@ class Runner:
 
     def _point(self, tid, frame):
         st = self.st
-        if st.error is not None:
+        if st.error is not None or self.atomic[tid]:
             return
         st.steps[tid] += 1
         st.total_steps += 1
@@ -87,6 +102,11 @@ class Runner:
         code = frame.f_code
         label = (tid, code.co_name, frame.f_lineno, frame.f_lasti) if self.opcode else (
             tid, code.co_name, frame.f_lineno)
+        if self.per_line_limit is not None:
+            h = self.line_hits.get(label, 0) + 1
+            self.line_hits[label] = h
+            if h > self.per_line_limit:
+                return
         try:
             c = self.ch.choose(label, 1 + len(others))
         except BaseException as e:  # noqa: BLE001
@@ -135,6 +155,7 @@ class Runner:
         if self.broken:
             raise HarnessError("runner is broken")
         self.ops, self.ch, self.st = ops, ch, State(self.n)
+        self.line_hits = {}
         first = ch.choose("start", self.n, free=True)
         self.go[first].release()
         if not self.done_evt.acquire(timeout=120):
@@ -192,3 +213,32 @@ def warm_up(ops, opcode=False):
     finally:
         r.close()
     return out, steps
+
+
+# ------------------------------------------------------------------------------- cold start
+COLD_PER_LINE_LIMIT = 3
+def _cold_exec(specs, make_op, prefix, labels, opcode):
+    """In a forked copy of the pristine process: build the operations and run ONE schedule."""
+    ops = [make_op(sp) for sp in specs]
+    r = Runner(len(ops), opcode, per_line_limit=COLD_PER_LINE_LIMIT)
+    try:
+        ch = choice.Chooser(prefix, labels)
+        st = r.run(ops, ch)
+        return (ch.trace, ch.free, st.results, st.steps, st.preemptions, st.switch_log)
+    finally:
+        r.close()
+
+
+def explore_cold(specs, make_op, bound: int, opcode: bool = False):
+    """Like ``explore`` but every execution starts in its own fork of the (pristine, post-import)
+    calling process, so that first-use code paths - lazy initialisation, caches filled on first
+    access - are interleaved too.  Yields (chooser, results, steps, preemptions, switch_log)."""
+    from .par import in_child
+
+    def run(ch):
+        trace, free, results, steps, pre, log = in_child(_cold_exec, specs, make_op, ch.prefix, ch.labels, opcode)
+        ch.trace, ch.free = list(trace), list(free)
+        return results, steps, pre, log
+
+    for ch, (results, steps, pre, log) in choice.explore(run, bound, check_labels=True):
+        yield ch, results, steps, pre, log
